@@ -579,6 +579,18 @@ static void rnd_sym(Rng& g, int mode)
     try { GS T(n); fromRM(T, A); T.invert(); if (!mfinite(T)) nonfin(K + ".invert:" + illname(mode) + ":nonfinite", fmt("n=%d: no exception and a non-finite inverse", n)); else kcls("random/SymMat/invert/" + illname(mode) + "/finite-result"); }
     catch (const Exc&) { kcls("random/SymMat/invert/" + illname(mode) + "/exception"); }
   }
+  // scale invariance: the pivot test of cholDec is relative to the diagonal element, and scaling by a power of 4 is
+  // exact in binary arithmetic, so A*4^k must factor into 2^k*L with the same nullity / the same exception
+  { int k = (g.uni(0, 1) ? 1 : -1) * g.uni(7, 23); LD f = ldexpl(1, 2 * k), h = ldexpl(1, k);
+    GS S1(n), S2(n); fromRM(S1, A); fromRM(S2, rscale(A, f)); bool t1 = false, t2 = false;
+    try { S1.cholDec(); } catch (const Exc&) { t1 = true; }
+    try { S2.cholDec(); } catch (const Exc&) { t2 = true; }
+    kcls(std::string("random/SymMat/cholDec/scale-invariance/") + (mode == 0 ? "regular" : illname(mode)) + (k > 0 ? "/up" : "/down"));
+    if (t1 != t2) viol(K + ".cholDec:scale-invariance:exception", fmt("n=%d A*4^%d: exception %d vs %d for A", n, k, int(t2), int(t1)));
+    else if (!t1) {
+      if (S1.nullity() != S2.nullity()) viol(K + ".cholDec:scale-invariance:nullity", fmt("n=%d kappa=%.3Lg: nullity %d for A but %d for A*4^%d", n, kappa, int(S1.nullity()), int(S2.nullity()), k));
+      else { const GS& c1 = S1; const GS& c2 = S2; for (int i = 1; i <= n; i++) for (int j = 1; j <= i; j++) if (LD(c2(i, j)) != LD(c1(i, j)) * h) {
+          viol(K + ".cholDec:scale-invariance:factor", fmt("n=%d: factor of A*4^%d at (%d,%d) is %.17g, 2^%d times the factor of A is %.17Lg", n, k, i, j, c2(i, j), k, LD(c1(i, j)) * h)); i = n; break; } } } }
 }
 // banded positive definite matrix with measured condition number (diagonal dominance + diagonal scaling)
 static RM band_pd(int n, int b, Rng& g, LD& kappa)
@@ -613,6 +625,16 @@ template <class BT> static void rnd_band(Rng& g, int mode, const char* T)
       else { B.solve(y); if (!vfinite(y)) nonfin(K + ".solve:" + illname(mode) + ":nonfinite", "factorisation accepted but non-finite solution"); } }
     catch (const Exc&) { kcls("random/" + t + "/cholDec/" + illname(mode) + "/exception"); }
   }
+  // scale invariance (see rnd_sym): LDL' of A*4^k has the same L and D*4^k
+  { int k = (g.uni(0, 1) ? 1 : -1) * g.uni(7, 23); LD f = ldexpl(1, 2 * k);
+    BT B1(n, b), B2(n, b); for (int i = 0; i < n; i++) for (int j = i; j < n && j <= i + b; j++) { B1(i + 1, j + 1) = double(A(i, j)); B2(i + 1, j + 1) = double(A(i, j) * f); }
+    bool t1 = false, t2 = false;
+    try { B1.cholDec(); } catch (const Exc&) { t1 = true; }
+    try { B2.cholDec(); } catch (const Exc&) { t2 = true; }
+    kcls("random/" + t + "/cholDec/scale-invariance/" + (mode == 0 ? "regular" : illname(mode)) + (k > 0 ? "/up" : "/down"));
+    if (t1 != t2) viol(K + ".cholDec:scale-invariance:exception", fmt("n=%d band=%d A*4^%d: exception %d vs %d for A", n, b, k, int(t2), int(t1)));
+    else if (!t1) { const BT& c1 = B1; const BT& c2 = B2; for (int i = 1; i <= n; i++) for (int j = i; j <= n && j <= i + b; j++) if (LD(c2(i, j)) != LD(c1(i, j)) * (i == j ? f : 1)) {
+        viol(K + ".cholDec:scale-invariance:factor", fmt("n=%d band=%d: factor of A*4^%d at (%d,%d) is %.17g, expected %.17Lg", n, b, k, i, j, c2(i, j), LD(c1(i, j)) * (i == j ? f : 1))); i = n; break; } } }
 }
 static void rnd_bandextra(Rng& g)
 {
